@@ -180,6 +180,9 @@ struct VerifAssert {
 struct VerifOOB {
     u32 address;
     bool is_write;
+    u32 pc = 0;     // register values at the time of the access, when the scenario published them
+    u16 prpage = 0;
+    bool have_regs = false;
 };
 struct VerifBudget {};
 
@@ -189,6 +192,8 @@ struct HookState {
     u64 budget = ~0ull;      // throw VerifBudget past this many accesses
     u32 last_oob = 0;
     bool armed = true;
+    const u32* pc_ptr = nullptr; // published by a scenario so that an out-of-bounds report can be explained
+    const u16* prpage_ptr = nullptr;
 };
 HookState& hooks();
 
